@@ -52,10 +52,10 @@ class OpTrace:
 
     __slots__ = ("steps", "depth", "max_depth", "budget_steps", "budget_depth",
                  "abort_at", "abort_site", "tripped", "digest", "sched", "tid",
-                 "gen_steps", "shared")
+                 "gen_steps", "shared", "abort_at_gen", "last_kind")
 
     def __init__(self, budget_steps=400_000, budget_depth=400, abort_at=None,
-                 sched=None, tid=0, shared=None):
+                 sched=None, tid=0, shared=None, abort_at_gen=None):
         self.steps = 0
         self.gen_steps = 0
         self.depth = 0
@@ -63,6 +63,8 @@ class OpTrace:
         self.budget_steps = budget_steps
         self.budget_depth = budget_depth
         self.abort_at = abort_at
+        self.abort_at_gen = abort_at_gen
+        self.last_kind = 0
         self.abort_site = None
         self.tripped = None
         self.digest = 0
@@ -91,7 +93,8 @@ class OpTrace:
                 self.gen_steps += 1
             self.digest = (self.digest * 1000003 + (self.tid << 40) + (kind << 20)
                            + frame.f_lineno) % M61
-            if self.steps == self.abort_at:
+            if self.steps == self.abort_at or (
+                    kind == 0 and self.gen_steps == self.abort_at_gen):
                 code = frame.f_code
                 fn = code.co_filename
                 self.abort_site = (
@@ -104,6 +107,7 @@ class OpTrace:
             s = self.sched
             if s is not None:
                 s.step(self, kind, frame)
+            self.last_kind = kind
         elif event == "return":
             self.depth -= 1
         return self.local
@@ -149,6 +153,9 @@ class Schedule:
         elif self.kind == "uniform":
             self.p = desc["p"]
             self.pg = desc.get("pg", desc["p"])
+        elif self.kind == "centry":
+            self.q = desc["q"]
+            self.p = desc.get("p", 0.002)
 
     def init_threads(self, tids):
         if self.kind == "pct":
@@ -169,9 +176,18 @@ class Schedule:
             return max(runnable, key=lambda t: self.prio[t])
         return self.rng.choice(sorted(runnable))
 
-    def decide(self, gstep, tid, runnable, kind):
+    def decide(self, gstep, tid, runnable, kind, last_kind=0):
         """return tid to switch to, or None"""
         if len(runnable) < 2:
+            return None
+        if self.kind == "centry":
+            # pre-empt a thread at the moment generated code calls into the
+            # builder (a compilation started at run time), so that the others
+            # run while its registry / stub / cache update is half done
+            entering = last_kind == 0 and kind != 0
+            if self.rng.random() < (self.q if entering else self.p):
+                others = sorted(t for t in runnable if t != tid)
+                return self.rng.choice(others)
             return None
         if self.kind == "explicit":
             q = self.queue
@@ -245,7 +261,7 @@ class Sched:
                 tr.tripped = "steps"
                 raise Budget("steps")
             return
-        to = self.schedule.decide(self.gstep, tr.tid, self.runnable, kind)
+        to = self.schedule.decide(self.gstep, tr.tid, self.runnable, kind, tr.last_kind)
         if to is not None:
             self.switch_log.append([self.gstep, to])
             self.switches += 1
